@@ -21,9 +21,10 @@ type Gen struct {
 	// BigInts makes index / slice literals occasionally huge (around 2^31, 2^63).
 	BigInts bool
 	// FuncP is the probability (in 1/16) that a top-level path gets trailing functions.
-	FuncP  int
-	budget int
-	long   int // containers of the current document still to be padded beyond the small sizes
+	FuncP   int
+	budget  int
+	longCap int
+	long    int // containers of the current document still to be padded beyond the small sizes
 }
 
 func New(r *rand.Rand) *Gen {
